@@ -9,6 +9,7 @@
 -/
 import CijProofs.Lemmas.Shear
 import CijProofs.Lemmas.ShearSource
+import CijProofs.Lemmas.ShearGlueSource
 import Mathlib.Analysis.Real.Sqrt
 
 namespace Cij.C03
@@ -26,10 +27,11 @@ theorem energy_invariant {R : Type} [CommRing R] (T : Mat3 R) (lam : Vec3 R) (e 
 
 /-! #### exactness: for each of the 15 shear keys the solver returns the component itself -/
 
-/-- Field of characteristic 0 (so also `ℝ`), every symmetric tensor `c` (21 values), every shear key, every
+/-- (model form; `c03_exact` below states the same about the pieces translated from shear.py on this run)
+Field of characteristic 0 (so also `ℝ`), every symmetric tensor `c` (21 values), every shear key, every
 eigen-decomposition meeting the contract, and ANY dictionaries that agree with the exact tensor on the keys the class
 asks for (`modulus` on `get_modulus_keys()`, `modulus_rotated` on `get_modulus_keys_rotated()`): the value is `c key`. -/
-theorem c03_exact {R : Type} [Field R] [CharZero R] (isZero : R → Bool) (hz : ∀ x, isZero x = true ↔ x = 0)
+theorem c03_exact_model {R : Type} [Field R] [CharZero R] (isZero : R → Bool) (hz : ∀ x, isZero x = true ↔ x = 0)
     (key : Modulus) (hk : key ∈ shearKeys) (c : Modulus → R) (T : Mat3 R) (lam : Vec3 R)
     (h : Contract T lam (fictitiousStrain key))
     (modulus modulusRotated : Modulus → R)
@@ -47,7 +49,7 @@ theorem c03_exact_real (isZero : ℝ → Bool) (hz : ∀ x, isZero x = true ↔ 
     (key : Modulus) (hk : key ∈ shearKeys) (c : Modulus → ℝ) (T : Mat3 ℝ) (lam : Vec3 ℝ)
     (h : Contract T lam (fictitiousStrain key)) :
     shearValue isZero key lam c (rotatedLookup T c) = c key :=
-  c03_exact isZero hz key hk c T lam h c (rotatedLookup T c) (fun _ _ => rfl) (fun _ _ => rfl)
+  c03_exact_model isZero hz key hk c T lam h c (rotatedLookup T c) (fun _ _ => rfl) (fun _ _ => rfl)
 
 /-- the shear keys are exactly the 15 keys carrying a Voigt index 4–6 -/
 theorem c03_shear_keys : shearKeys.length = 15 ∧ shearKeys.Nodup ∧
@@ -242,5 +244,198 @@ theorem c03_model_is_source {α : Type} [Add α] [Sub α] [Mul α] [Div α] [Nat
       ShExpr.eval (ShExpr.envOf eRot (e (Shear.idx key.i.i) (Shear.idx key.i.j)) (e (Shear.idx key.j.i) (Shear.idx key.j.j)) eRot eOrig
         ((key.multiplicity : Nat) : α)) Generated.shearTarget :=
   ⟨ShExpr.energy_term_is_source isZero e resolve target, ShExpr.target_is_source key e eRot eOrig⟩
+
+/-! #### the glue IS the source: everything of shear.py around the two formulas, re-extracted on this run
+
+`tools/gens/shear_src.py` → `Generated/ShearGlue.lean`: the cell assignments of `fictitious_strain`, the expressions returned by
+`fictitious_strain_rotated` / `transformation_matrix`, the statements of `strain_rotated`, header / key / skip / body of the two
+module functions, which strain / resolver / target every energy property and key method uses, the dictionaries behind the
+resolvers, `value_isothermal` / `value_adiabatic`, `__init__`, imports and the list of every `def` of the file.
+`CijModel/ShearGlue.lean` gives these data their numpy / Python meaning (`none` for anything it does not know).  Below: the
+hand-written model IS that meaning, for every scalar type, every one of the 15 keys and every input. -/
+
+/-- FICTITIOUS STRAIN, all 15 keys: the matrix the translated assignments build (zeros, then `e[key.i[0]-1, key.i[1]-1] = 1`, its
+mirror, `e[key.j[0]-1, key.j[1]-1] = 1`, its mirror, in source order) is the model's; it is symmetric, so the matrix
+`numpy.linalg.eigh` assembles from the lower triangle is that very matrix. -/
+theorem c03_glue_is_source_fict {α : Type} [Add α] [Sub α] [Mul α] [Div α] [NatCast α] (key : Modulus) (hk : key ∈ shearKeys) :
+    ShearGlue.sourceFict (α := α) key = some (fictitiousStrain key) ∧
+    (∀ i j, fictitiousStrain (α := α) key i j = fictitiousStrain key j i) ∧
+    ShearGlue.symFromLower (fictitiousStrain (α := α) key) = fictitiousStrain key :=
+  ⟨ShearGlue.fict_is_source key hk, ShearGlue.fictitiousStrain_symm key, ShearGlue.symFromLower_fict key⟩
+
+/-- FRAMES: `fictitious_strain_rotated` = `numpy.diag` of component 0, `transformation_matrix` = component 1 of
+`numpy.linalg.eigh(self.fictitious_strain)` — for whatever eigh returns (`o.eigh`): no re-ordering, no handedness fix, no rounding. -/
+theorem c03_glue_is_source_frames {α : Type} [Add α] [Sub α] [Mul α] [Div α] [NatCast α] (o : ShearGlue.Obj α)
+    (hk : o.key ∈ shearKeys) :
+    Generated.ShearGlue.cls.self1 o "fictitious_strain_rotated" =
+      some (.mat (diagMat (o.eigh (fictitiousStrain o.key)).1)) ∧
+    Generated.ShearGlue.cls.self1 o "transformation_matrix" = some (.mat (o.eigh (fictitiousStrain o.key)).2) :=
+  ⟨ShearGlue.rotated_is_source o hk, ShearGlue.transformation_is_source o hk⟩
+
+/-- STRAIN_ROTATED, for EVERY matrix `T` held by `transformation_matrix` and every row `s` of `self.strain`: the translated statements
+compute the model's `strainRotated T s`, which is the diagonal of `Tᵀ · diag(s) · T` with the product taken in the order written. -/
+theorem c03_glue_is_source_strain_rotated {α : Type} [Add α] [Sub α] [Mul α] [Div α] [NatCast α] (env : ShearGlue.Env α)
+    (T : Mat3 α) (s : Vec3 α) (hs : env.self "strain" = some (.rows s))
+    (hT : env.self "transformation_matrix" = some (.mat T)) :
+    ShearGlue.runSr env [] Generated.ShearGlue.cls.strainRotated.2 = some (.rows (strainRotated T s)) ∧
+    ∀ a, strainRotated T s a = ShearGlue.mmul (ShearGlue.mmul (ShearGlue.transpose T) (diagMat s)) T a a :=
+  ⟨ShearGlue.strainRotated_stmts_is_source env T s hs hT, ShearGlue.strainRotated_eq_matrix T s⟩
+
+/-- … and on the object: `self.strain_rotated` is `strainRotated` of the eigenvector matrix eigh returned -/
+theorem c03_glue_is_source_strain_rotated_obj {α : Type} [Add α] [Sub α] [Mul α] [Div α] [NatCast α] (o : ShearGlue.Obj α)
+    (hk : o.key ∈ shearKeys) :
+    ShearGlue.sourceStrainRotated o = some (strainRotated (o.eigh (fictitiousStrain o.key)).2 o.strain) :=
+  ShearGlue.strainRotated_is_source o hk
+
+/-- THE TWO MODULE FUNCTIONS, all inputs: non-zero test `numpy.logical_not(numpy.isclose(e, 0))` (default tolerances = the parameter
+`isZero`), `itertools.product(nz, nz)`, `key = c_(i+1, j+1, k+1, l+1)`, `if target and key == target: continue`, then the translated
+term accumulated from 0 / the key appended; the accumulator returned as it is. -/
+theorem c03_glue_is_source_loops {α : Type} [Add α] [Sub α] [Mul α] [Div α] [NatCast α] (isZero : α → Bool) (e : Mat3 α)
+    (resolve : Modulus → α) (target : Option Modulus) :
+    Generated.ShearGlue.energyFn.energy Generated.shearEnergyTerm isZero e resolve target =
+      some (strainEnergy isZero e resolve target) ∧
+    Generated.ShearGlue.keysFn.keys isZero e target = some (energyKeys isZero e target) ∧
+    (∀ pq, Generated.ShearGlue.energyFn.keyOf pq = some (keyOfPairs pq) ∧ Generated.ShearGlue.keysFn.keyOf pq = some (keyOfPairs pq)) :=
+  ⟨ShearGlue.energyFn_is_source isZero e resolve target, ShearGlue.keysFn_is_source isZero e target, ShearGlue.keyOf_is_source⟩
+
+/-- ALL ORDERED PAIRS: the loop body is reached exactly once for every ordered pair of non-zero cells — `((ij),(kl))` and
+`((kl),(ij))` are two iterations — except, with a target, the pairs whose key is the target. -/
+theorem c03_glue_all_ordered_pairs {α : Type} [Add α] [Sub α] [Mul α] [Div α] [NatCast α] (isZero : α → Bool) (e : Mat3 α) (target : Option Modulus) :
+    (energyPairs isZero e target).Nodup ∧
+    (∀ pq, pq ∈ energyPairs isZero e none ↔ isZero (e pq.1.1 pq.1.2) = false ∧ isZero (e pq.2.1 pq.2.2) = false) ∧
+    (∀ t pq, pq ∈ energyPairs isZero e (some t) ↔
+      (isZero (e pq.1.1 pq.1.2) = false ∧ isZero (e pq.2.1 pq.2.2) = false) ∧ keyOfPairs pq ≠ t) :=
+  ⟨ShearGlue.energyPairs_nodup isZero e target, ShearGlue.mem_energyPairs_none isZero e,
+    fun t => ShearGlue.mem_energyPairs_some isZero e t⟩
+
+/-- CROSS TERMS of a rotated strain with three non-zero eigenvalues (c14, c25, c36: spectrum −1, 1, 1): the rotated frame is asked
+for all nine `c'_aabb` — each of the cross components (1′2′), (1′3′), (2′3′) TWICE, each longitudinal one once. -/
+theorem c03_glue_rotated_cross_terms {α : Type} [Add α] [Sub α] [Mul α] [Div α] [NatCast α] (isZero : α → Bool) (h0 : isZero ((0 : Nat) : α) = true)
+    (lam : Vec3 α) (h : ∀ a, isZero (lam a) = false) :
+    modulusKeysRotated isZero lam = (fin3.flatMap fun a => fin3.map fun b => key4 a a b b) ∧
+    (∀ a b : Fin 3, (modulusKeysRotated isZero lam).count (key4 a a b b) = if a = b then 1 else 2) ∧
+    (modulusKeysRotated isZero lam).map Modulus.voigt =
+      [some (1, 1), some (1, 2), some (1, 3), some (1, 2), some (2, 2), some (2, 3), some (1, 3), some (2, 3), some (3, 3)] := by
+  have hl := ShearGlue.modulusKeysRotated_three isZero h0 lam h
+  refine ⟨hl, fun a b => ?_, ?_⟩
+  · rw [hl]; exact ShearGlue.cross_counts a b
+  · rw [hl]; decide +kernel
+
+/-- WIRING: the original-frame energy / key list use `fictitious_strain`, `self.modulus[key]` and target `self.key`; the rotated-frame
+ones use `fictitious_strain_rotated`, `self.modulus_rotated[key]` and NO target. -/
+theorem c03_glue_is_source_wiring {α : Type} [Add α] [Sub α] [Mul α] [Div α] [NatCast α] (o : ShearGlue.Obj α)
+    (hk : o.key ∈ shearKeys) :
+    ShearGlue.sourceEnergy o "fictitious_strain_energy" =
+      some (strainEnergy o.isZero (fictitiousStrain o.key) o.modulus (some o.key)) ∧
+    ShearGlue.sourceEnergy o "fictitious_strain_energy_rotated" =
+      some (strainEnergy o.isZero (diagMat (o.eigh (fictitiousStrain o.key)).1) o.modulusRotated none) ∧
+    ShearGlue.sourceKeys o "get_modulus_keys" = some (modulusKeys o.isZero o.key) ∧
+    ShearGlue.sourceKeys o "get_modulus_keys_rotated" =
+      some (modulusKeysRotated o.isZero (o.eigh (fictitiousStrain o.key)).1) :=
+  ⟨ShearGlue.energy_orig_is_source o hk, ShearGlue.energy_rot_is_source o hk, ShearGlue.keys_orig_is_source o hk,
+    ShearGlue.keys_rot_is_source o hk⟩
+
+/-- VALUE, no post-processing: `value_isothermal` is `get_target_elastic_modulus()` as it is = the translated target formula on the two
+translated energies; `value_adiabatic` is `value_isothermal`. -/
+theorem c03_glue_is_source_value {α : Type} [Add α] [Sub α] [Mul α] [Div α] [NatCast α] (o : ShearGlue.Obj α)
+    (hk : o.key ∈ shearKeys) :
+    ShearGlue.sourceValue o "value_isothermal" =
+      some (shearValue o.isZero o.key (o.eigh (fictitiousStrain o.key)).1 o.modulus o.modulusRotated) ∧
+    ShearGlue.sourceValue o "value_adiabatic" = ShearGlue.sourceValue o "value_isothermal" := by
+  have h := ShearGlue.value_is_source o hk
+  exact ⟨h.1, h.2.trans h.1.symm⟩
+
+/-- no call to anything in `get_target_elastic_modulus` (three statements: unpack `self.key.standard`, one local, the return), and the
+two module functions call exactly these functions — no clean-up (`numpy.where`, `numpy.isclose` on the result), no rounding -/
+theorem c03_glue_no_postprocessing :
+    Generated.ShearGlue.targetCalls = [] ∧
+    Generated.ShearGlue.targetStatements = ["unpack self.key.standard", "local", "return"] ∧
+    Generated.ShearGlue.targetParams = [("self", none)] ∧
+    Generated.ShearGlue.energyFnCalls =
+      ["c_", "itertools.product", "numpy.argwhere", "numpy.isclose", "numpy.logical_not", "resolve_elastic_modulus"] ∧
+    Generated.ShearGlue.keysFnCalls =
+      ["_keys.append", "c_", "itertools.product", "numpy.argwhere", "numpy.isclose", "numpy.logical_not"] := by
+  decide +kernel
+
+/-- STATE: `__init__` stores its parameters and two FRESH dictionaries per instance; the class has no base class, no class-level
+statement besides its methods; the module binds only `logger`; `numpy`, `itertools`, `c_`, `LazyProperty` are what the evaluators take
+them for; the strain / frame properties are `LazyProperty`s, the energies plain properties (they read the dictionaries at call time). -/
+theorem c03_glue_state_and_names :
+    Generated.ShearGlue.cls.initParams = [("self", none), ("strain", none), ("key", none), ("calculator", some "None")] ∧
+    Generated.ShearGlue.cls.initAssigns =
+      [("key", .param "key"), ("strain", .param "strain"), ("modulus_isothermal", .freshDict),
+       ("modulus_isothermal_rotated", .freshDict), ("calculator", .param "calculator")] ∧
+    Generated.ShearGlue.classBases = [] ∧ Generated.ShearGlue.classOtherStatements = [] ∧
+    Generated.ShearGlue.moduleAssigns = [("logger", "getLogger(__name__)")] ∧ Generated.ShearGlue.moduleOtherStatements = [] ∧
+    (∀ p ∈ [("numpy", "numpy"), ("itertools", "itertools"), ("c_", "cij.util.c_"), ("LazyProperty", "lazy_property.LazyProperty")],
+      Generated.ShearGlue.imports.filter (fun q => q.1 == p.1) = [p]) ∧
+    Generated.ShearGlue.methodKinds =
+      [("__init__", "method"), ("fictitious_strain", "LazyProperty"), ("fictitious_strain_rotated", "LazyProperty"),
+       ("transformation_matrix", "LazyProperty"), ("fictitious_strain_energy", "property"),
+       ("fictitious_strain_energy_rotated", "property"), ("strain_rotated", "LazyProperty"),
+       ("get_target_elastic_modulus", "method"), ("get_modulus_keys", "method"), ("get_modulus_keys_rotated", "method"),
+       ("get_elastic_modulus", "method"), ("get_elastic_modulus_rotated", "method"), ("value_isothermal", "LazyProperty"),
+       ("value_adiabatic", "property")] := by
+  decide +kernel
+
+/-- INVENTORY: every `def` / `lambda` of shear.py (qualified names, in source order, a redefinition would be listed twice) is one the
+translators turned into data — none is skipped, none is only pinned as text. -/
+theorem c03_glue_inventory_complete :
+    Generated.ShearGlue.definedFunctions = Generated.ShearGlue.handled.map (·.1) ∧
+    Generated.ShearGlue.definedFunctions.Nodup ∧
+    (∀ h ∈ Generated.ShearGlue.handled, h.2 ≠ ShearGlue.Handled.pinned) ∧
+    Generated.ShearGlue.definedFunctions.length = 18 := by
+  decide +kernel
+
+/-- EXACTNESS, stated about the pieces translated from shear.py on this run.  Field of characteristic 0 (so also `ℝ`), an instance `o`
+for one of the 15 keys, every symmetric tensor `c` (21 values), `F` the matrix the translated `fictitious_strain` builds, whatever eigh
+returns for it as long as it meets the contract (orthogonal, diagonalising), `ks` / `ksr` the key lists the translated
+`get_modulus_keys()` / `get_modulus_keys_rotated()` return, and ANY dictionaries that agree with the exact tensor on them (crystal frame
+on `ks`, the frame of the eigenvectors on `ksr`): the translated `value_isothermal` and `value_adiabatic` are `c key`. -/
+theorem c03_exact {R : Type} [Field R] [CharZero R] (o : ShearGlue.Obj R) (hz : ∀ x, o.isZero x = true ↔ x = 0)
+    (hk : o.key ∈ shearKeys) (c : Modulus → R)
+    (F : Mat3 R) (hF : ShearGlue.sourceFict o.key = some F)
+    (h : Contract (o.eigh F).2 (o.eigh F).1 F)
+    (ks ksr : List Modulus) (hks : ShearGlue.sourceKeys o "get_modulus_keys" = some ks)
+    (hksr : ShearGlue.sourceKeys o "get_modulus_keys_rotated" = some ksr)
+    (hm : ∀ k ∈ ks, o.modulus k = c k)
+    (hr : ∀ k ∈ ksr, o.modulusRotated k = rotatedLookup (o.eigh F).2 c k) :
+    ShearGlue.sourceValue o "value_isothermal" = some (c o.key) ∧
+    ShearGlue.sourceValue o "value_adiabatic" = some (c o.key) := by
+  have hF' : F = fictitiousStrain o.key := by
+    have := ShearGlue.fict_is_source (α := R) o.key hk
+    rw [hF] at this
+    exact Option.some.inj this
+  subst hF'
+  have hks' : ks = modulusKeys o.isZero o.key := by
+    have := ShearGlue.keys_orig_is_source o hk
+    rw [hks] at this
+    exact Option.some.inj this
+  have hksr' : ksr = modulusKeysRotated o.isZero (o.eigh (fictitiousStrain o.key)).1 := by
+    have := ShearGlue.keys_rot_is_source o hk
+    rw [hksr] at this
+    exact Option.some.inj this
+  subst hks' hksr'
+  have hv := ShearGlue.value_is_source o hk
+  have he := c03_exact_model o.isZero hz o.key hk c (o.eigh (fictitiousStrain o.key)).2 (o.eigh (fictitiousStrain o.key)).1 h
+    o.modulus o.modulusRotated hm hr
+  simp only [ShearGlue.Obj.lam] at hv
+  rw [he] at hv
+  exact hv
+
+/-- non-vacuity of `c03_exact`: its hypotheses about the translated pieces are met by every instance with one of the 15 keys
+(the translated `fictitious_strain` and both key methods do return something) -/
+example {R : Type} [Field R] (o : ShearGlue.Obj R) (hk : o.key ∈ shearKeys) :
+    (∃ F, ShearGlue.sourceFict (α := R) o.key = some F) ∧ (∃ ks, ShearGlue.sourceKeys o "get_modulus_keys" = some ks) ∧
+    (∃ ksr, ShearGlue.sourceKeys o "get_modulus_keys_rotated" = some ksr) :=
+  ⟨⟨_, ShearGlue.fict_is_source o.key hk⟩, ⟨_, ShearGlue.keys_orig_is_source o hk⟩, ⟨_, ShearGlue.keys_rot_is_source o hk⟩⟩
+
+/-- the translated pieces on a concrete instance (ℚ, c14, eigh = the exact frame `T = [[1,0,0],[0,·,·],[0,·,·]]` is not needed here):
+the fictitious strain of c14 as built by the translated assignments, and the nine rotated-frame requests for the spectrum (−1, 1, 1) -/
+example : (ShearGlue.sourceFict (α := ℚ) (keyOfVoigt (1, 4))).map (fun F => fin3.map fun i => fin3.map fun j => F i j) =
+      some [[1, 0, 0], [0, 0, 1], [0, 1, 0]] ∧
+    (modulusKeysRotated (α := ℚ) (fun x => decide (x = 0)) (fun a => ![-1, 1, 1] a)).map Modulus.voigt =
+      [some (1, 1), some (1, 2), some (1, 3), some (1, 2), some (2, 2), some (2, 3), some (1, 3), some (2, 3), some (3, 3)] := by
+  decide +kernel
 
 end Cij.C03
